@@ -28,30 +28,48 @@ ACCEPTED = {
 CMAP = {'bit_has_and': 'HAS_AND', 'bit_has_any': 'HAS_ANY', 'bit_or': 'OR', 'bit_and_not': 'AND_NOT', 'bit_and': 'AND', 'bit_copy': 'COPY', 'bit_clear_all': 'CLEAR'}
 
 
-def literal_text(f):
-    """the text a writer emits, literals in source order; the machine prefix is dropped, other operands are <?>; returns (text, line map)"""
+DOC_DEPENDENT = ('writeExecContent', 'writeIfBlock', 'writeRaiseDoneDate', 'writeFSMDequeueEvent')
+
+
+def literal_text(f, fb=None, depth=0):
+    """the text a writer emits, literals in source order; the machine prefix is dropped, other operands are <?>.  Calls to other
+    writers on the same stream (extracted helpers) are expanded in place, except the document-dependent ones.  Returns (text, [(line, source line)])"""
     out = []
-    for n in f.walk():
-        if n['k'] == 'CXXOperatorCallExpr' and n.get('op') == '<<':
-            par = f.parent(n)
-            while par is not None and par['k'] in facts.TRANSPARENT:
-                par = f.parent(par)
-            if par is not None and par['k'] == 'CXXOperatorCallExpr' and par.get('op') == '<<':
+
+    def emit(fn, d):
+        # statements in source order: stream insertions and calls to helper writers
+        items = []
+        for n in fn.walk():
+            if n['k'] == 'CXXOperatorCallExpr' and n.get('op') == '<<':
+                par = fn.parent(n)
+                while par is not None and par['k'] in facts.TRANSPARENT:
+                    par = fn.parent(par)
+                if par is not None and par['k'] == 'CXXOperatorCallExpr' and par.get('op') == '<<':
+                    continue
+                items.append((n['loc'][1], n['loc'][2], 'ins', n))
+            elif fb is not None and d < 2 and n['k'] in ('CallExpr', 'CXXMemberCallExpr') and n.get('callee') and not n['callee'].get('ext') and n['callee']['m'] in fb.funcs:
+                cf = fb.funcs[n['callee']['m']]
+                if cf.m != fn.m and cf.q.split('::')[-1] not in DOC_DEPENDENT and any('ostream' in (p.get('t') or '') for p in cf.d.get('params', [])) and not cf.q.split('::')[-1].startswith('writeFSM'):
+                    items.append((n['loc'][1], n['loc'][2], 'call', (n, cf)))
+        for line, col, kind, payload in sorted(items, key=lambda x: (x[0], x[1])):
+            if kind == 'call':
+                emit(payload[1], d + 1)
                 continue
             ops = []
-            tpl.flatten(n, ops)
+            tpl.flatten(payload, ops)
             for o in ops[1:]:
                 oo = strip(o)
+                src = line if d else oo['loc'][1]
                 if oo['k'] == 'StringLiteral':
-                    out.append((oo.get('str', ''), oo['loc'][1]))
+                    out.append((oo.get('str', ''), src))
                 elif oo['k'] == 'DeclRefExpr' and oo['ref'].get('name') == 'endl':
-                    out.append(('\n', oo['loc'][1]))
-                elif oo['k'] == 'MemberExpr' and oo['ref'].get('name') == '_prefix':
-                    out.append(('', oo['loc'][1]))
+                    out.append(('\n', src))
+                elif oo['k'] in ('MemberExpr', 'DeclRefExpr') and 'prefix' in (oo['ref'].get('name') or '').lower():
+                    out.append(('', src))
                 else:
-                    out.append(('<?>', oo['loc'][1]))
+                    out.append(('<?>', src))
+    emit(f, depth)
     text = ''.join(t for t, _ in out)
-    # source line of every emitted line
     lines, cur, src = [], '', None
     for t, l in out:
         for ch in t:
@@ -68,7 +86,7 @@ def literal_text(f):
 
 
 def norm(x):
-    x = x.strip()
+    x = x.strip().replace('<?>', '')       # a machine prefix handed around under another name
     x = re.sub(r'ctx->machine->', '', x)
     x = re.sub(r'ctx->|ctx\.', '', x)
     x = re.sub(r'USCXML_GET_STATE\(([^)]*)\)', r'states[\1]', x)
@@ -105,7 +123,7 @@ def run(rep, tier):
     per_writer = {}
     for w in STEP_WRITERS:
         f = fb.fn('uscxml::ChartToPromela::' + w)
-        t, ls = literal_text(f)
+        t, ls = literal_text(f, fb)
         per_writer[w] = (f, t, ls)
         ptext += t + '\n'
         plines += [(l, s, w) for l, s in ls]
